@@ -151,6 +151,40 @@ def check_case(ctx, cfg, seed):
     ctx.count(cfg.ops[ci])
 
 
+def check_rollback(ctx, cfg, seed):
+    """in-process roll-back: checkpoint, train on, checkpoint, load the first checkpoint into the SAME object, train on
+    with other batches, checkpoint again at the same step count — every checkpoint holds what the inverse workers hold
+    at that moment"""
+    case = dict(cfg.describe(), sched_seed=seed, stream='rollback')
+    rr = neoxsim.run_real(cfg, seed)
+    f = neoxsim.run_failed(rr)
+    if f:
+        if cfg.mp > 1:
+            return ctx.fail(f'roll-back run failed with model-parallel degree > 1: {f}', case, 'neox-resume-mp>1')
+        return ctx.fail(f'roll-back run failed: {f}', case, 'neox-rollback-run-failed')
+    W_ = cfg.world
+    for i, op in enumerate(cfg.ops):
+        if op != 'v':
+            continue
+        last_s = max(j for j, o in enumerate(cfg.ops[:i]) if o == 's')
+        truth = {}
+        for r in range(W_):
+            res = rr.res[r]
+            for l, (name, iw) in enumerate(zip(res['names'], res['inv'])):
+                if iw == r:
+                    truth[name] = res['ops'][last_s]['factors'][l]
+        for r in range(W_):
+            got = rr.res[r]['ops'][i]['state_layers']
+            if got is None or sorted(got) != sorted(truth):
+                return ctx.fail(f'rank {r}: checkpoint #{i} holds layers {None if got is None else sorted(got)}', case, 'neox-gather-incomplete')
+            for name, (A, G) in got.items():
+                if not (torch.equal(A, truth[name][0]) and torch.equal(G, truth[name][1])):
+                    return ctx.fail(f'rank {r}: checkpoint taken at op {i} (after a roll-back: {"b" in cfg.ops[:i]}) does not hold the '
+                                    f'factors of layer {name} its inverse worker holds at that moment', case, 'neox-gather-stale')
+    ctx.case(str(case), nontrivial=True)
+    ctx.count('rollback')
+
+
 def run(ctx):
     from common import OUT
     rng = ctx.rng
@@ -182,6 +216,15 @@ def run(ctx):
         check_case(ctx, cfg, ctx.seed * 613 + i)
         if cfg.ckpt_dir:
             shutil.rmtree(cfg.ckpt_dir, ignore_errors=True)
+    for i in range(ctx.budget(6, 40)):
+        while True:
+            cfg = neoxsim.NCfg(rng, mp=1)       # (mp > 1: loading is known finding F2)
+            if cfg.world <= 8:
+                break
+        a, b = rng.randrange(1, 3), rng.randrange(1, 3)
+        cfg.fus = 1
+        cfg.ops = ['f1', 's'] * a + ['k'] + ['f1', 's'] * b + ['v', 'b'] + ['f1', 's'] * b + ['v']
+        check_rollback(ctx, cfg, ctx.seed * 419 + i)
 
 
 def search(ctx):
